@@ -101,11 +101,20 @@ Close(f, n, brk) ==
 RECURSIVE NextLogs(_, _, _)
 NextLogs(n, from, to) == IF from > to THEN <<>> ELSE <<NextLog(n, from)>> \o NextLogs(n, from + 1, to)
 
+\* built-in consumers of an iterable. k < 4: Array.from / spread / new Set / Math.max(...): every element is accepted. k = 4, 5:
+\* new Map / Object.fromEntries: the first element is not an entry object -> TypeError; k = 6: Array.from with a mapper that throws 5
+\* at the element 2. When the processing of an element throws, the built-in closes the iterator (7.4.11 IteratorClose with a throw
+\* completion: return() is called once, what it does or throws is ignored) and the original exception is what the caller sees.
 ExecConsume(n) ==
-  LET calls == IF n.nt # 0 /\ n.nt <= n.n + 1 THEN n.nt ELSE n.n + 1
-      throws == n.nt # 0 /\ n.nt <= n.n + 1
-  IN /\ log' = log \o NextLogs(n, 1, calls)
-     /\ IF throws THEN Thr7(n) ELSE mode' = "adv" /\ UNCHANGED comp
+  LET trig == IF n.k \in {4, 5} THEN 1 ELSE IF n.k = 6 THEN 2 ELSE 0                 \* the element whose processing throws (0: none)
+      nthrow == n.nt # 0 /\ n.nt <= n.n + 1 /\ (trig = 0 \/ n.nt <= trig)            \* next() itself throws first
+      elthrow == ~nthrow /\ trig # 0 /\ n.n >= trig
+      calls == IF nthrow THEN n.nt ELSE IF elthrow THEN trig ELSE n.n + 1
+  IN /\ log' = log \o NextLogs(n, 1, calls) \o (IF elthrow /\ n.b = 1 THEN <<40000 + n.l * 100>> ELSE <<>>)
+     /\ IF nthrow THEN Thr7(n)
+        ELSE IF elthrow THEN (IF n.b = 1 /\ n.c = 1 /\ n.fk # 0 THEN mode' = "done" /\ comp' = Fatal(n.fk)
+                              ELSE mode' = "unw" /\ comp' = Throw(IF n.k = 6 THEN 5 ELSE 9999))
+        ELSE mode' = "adv" /\ UNCHANGED comp
      /\ UNCHANGED <<cur, k>>
 
 ExecDestr(n) ==
